@@ -28,10 +28,12 @@ TraceInit ==
 
 StripObs(st) ==
   [st EXCEPT !.ch = [i \in 1..Len(st.ch) |->
-      [nm |-> st.ch[i].nm, cid |-> st.ch[i].cid, sl |-> st.ch[i].sl, eb |-> st.ch[i].eb]]]
+      [nm |-> st.ch[i].nm, cid |-> st.ch[i].cid, sl |-> st.ch[i].sl, eb |-> st.ch[i].eb,
+       wt |-> st.ch[i].wt, mp |-> st.ch[i].mp]]]
 ObsOf(st) ==
   [st EXCEPT !.ch = [i \in 1..Len(st.ch) |->
       [nm |-> st.ch[i].nm, cid |-> st.ch[i].cid, sl |-> st.ch[i].sl, eb |-> st.ch[i].eb,
+       wt |-> st.ch[i].wt, mp |-> st.ch[i].mp,
        du |-> ChanDur(st.ch[i]), df |-> ChanDurFall(CfgOf(st, i), st.ch[i])]]]
 
 Consume ==
